@@ -28,10 +28,10 @@ claimed = {
    text="Trace invariant over the simulated storage's read trace for the canonical key-pinning WHERE shapes (literal on either side), alone, with an opaque conjunct on either side, and in pairs; Get keys inside the pinned set/region, at most one cursor key beyond it per poll and last, nothing below the region start, point reads (no cursor Next) for =/IN, no reads for clauses unsatisfiable on their face. quick samples; thorough enumerates all literal choices per shape over the alphabet {a,b,c}.",
    note="Closed bounds; one look-ahead key per poll; cursor creation/seek without reads tolerated; union of conjunct regions. The trace is a deterministic function of (statement, store, batch, mode); the simulator contributes the vantage point and generated/history-built stores.",
    tech="deterministic simulation: invariant monitor over the simulated disk's read trace"),
- "C19": dict(cat="exploration", ref="§4 C19",
-   text="Seeded schedule search: 2..16 client goroutines running real kvql code under a token scheduler that decides who runs at every storage call (pre-drawn, replayable schedule; random switch probabilities and directed schedules), three store topologies, binary built with -race and the token hand-off invisible to the detector, so any unsynchronised conflicting access to library state by two clients is reported deterministically; each statement's result compared with its solo-schedule result.",
-   note="amd64 TSO; yield granularity = one storage call; sync.Pool inside fmt/regexp may add hidden edges; knobs fixed before clients start. Race reports without kvql frames are harness defects (exit 2).",
-   tech="deterministic simulation: seeded interleaving search with a race-invisible token scheduler, race detector armed, solo-run oracle"),
+ "C19": dict(cat="exploration", ref="§4 C19, §10.2",
+   text="Seeded schedule search: 2..16 client goroutines running real kvql code under a token scheduler that decides who runs at every storage call (entry and return) and at 17 library-internal yield points (verif hook), from per-client replayable schedules; four store topologies; half of the scenarios with per-client storage faults; binary built with -race and the token hand-off invisible to the detector, so any unsynchronised conflicting access to library state by two clients is reported deterministically. Oracles: each statement's result equals its solo-schedule result (private / shared read-only / shared read-write with per-client prefixes), and in the contended topology the history of point reads and writes of shared hot keys is linearizable against a per-key register model (porcupine).",
+   note="amd64 TSO; yields only at storage calls and at the hook sites; sync.Pool inside fmt/regexp may add hidden edges; knobs fixed before clients start; solo run shares the process with the concurrent run. Race reports without kvql frames are harness defects (exit 2).",
+   tech="deterministic simulation: seeded interleaving search with a race-invisible token scheduler (storage-call and library-internal yield points), race detector armed, solo-run oracle, porcupine linearizability check of the recorded history"),
  "C03": dict(cat="exploration", ref="§4 C03",
    text="Statements from a typed generator over the full language (swarm of feature families) executed twice on equal simulated stores, drained row-at-a-time and in batches, at batch sizes from 1 to beyond the result; content comparison in order (multiset inside ORDER BY ties), final store and mutation log for write statements; row-error-with-batch-success, one-sided panics/non-termination and content differences are violations.",
    note="Batch-only error values tolerated (the property allows that direction); quantile not generated; ORDER BY only over uniformly typed fields; statements the planner rejects are skipped.",
